@@ -59,7 +59,7 @@ Definition is_castling (s : BoardState) (x : BoardState) : Prop :=
     to_move s = c /\ castle_side kc rf rt /\
     (match c with White => r1 = WKS /\ r2 = WQS | Black => r1 = BKS /\ r2 = BQS end) /\
     king_location s c = (r0, 6) /\ get (board s) (r0, 6) = Full (mkPiece c King) /\ get (board s) (r0, rf) = Full (mkPiece c Rook) /\
-    get (board s) (r0, kc) = Empty /\ get (board s) (r0, rt) = Empty /\
+    get (board s) (r0, kc) = Empty /\ get (board s) (r0, rt) = Empty /\ alg = ((r0, 6), (r0, kc)) /\
     x = castle_successor zt s c r1 r2 (r0, kc) alg (r0, rf) (r0, rt).
 
 Lemma generate_moves_view s x :
@@ -300,7 +300,7 @@ Qed.
 Lemma castling_wf s x : pos_ok s AllMoves -> is_castling s x -> wf5 x.
 Proof.
   intros (OK & KO & RH & EP & NK) (c & r1 & r2 & kc & rf & rt & alg & H). cbv zeta in H.
-  destruct H as (TM & Side & Rts & KL & GK & GR & EK & ER & ->).
+  destruct H as (TM & Side & Rts & KL & GK & GR & EK & ER & _ & ->).
   destruct (castle_successor_wf zt s c r1 r2 kc rf rt alg OK KO KL GK GR EK ER Side) as [Cx Kx].
   destruct (castle_successor_view zt s c r1 r2 kc rf rt alg OK KL GK GR Side) as (_ & _ & _ & _ & _ & V0 & _ & _).
   split; [exact Cx|]. split; [exact Kx|]. split.
